@@ -68,7 +68,7 @@ ENGS.append(build(SDL, "c08_ov", custom_default_resolver=universal, query_cache_
 
 # the list sub-selection carries collection-time directives (@include / @skip: their arguments are coerced while the fields are collected,
 # once per list item, possibly concurrently)
-Q = "{ n mid { n leaf { n } leaves { n @skip(if: false) } } mids { n @include(if: true) k: n @skip(if: false) z: n @include(if: false) } sum(a: 1, b: 2) m2 { leaf { n } nnl { n } } }"
+Q = "{ n mid { n leaf { n } leaves { n @skip(if: false) } } mids { n @include(if: true) k: n @skip(if: false) z: n @include(if: false) } sum(a: 1, b: 2) s2: sum(b: 2) s3: sum m2 { leaf { n } nnl { n } } }"
 LEAF = {"n": 3}
 MID = {"n": 2, "leaf": LEAF, "leaves": [LEAF, {"n": 4}]}
 DATA = {"n": 1, "mid": MID, "mids": [MID, {"n": 5}], "m2": {"leaf": {"n": 6}, "nnl": [{"n": 7}, {"n": 8}, {"n": 9}]}}
@@ -123,6 +123,10 @@ def well_behaved(loop, log):
     """everything started has finished, nothing started twice, no gate left pending, every task done"""
     starts = [p for k, p in log if k == "start"]
     ends = [p for k, p in log if k == "end"]
+    # argument hooks carry no response path (the same argument definition serves several fields of the request): counted, not de-duplicated
+    if sorted(p for p in starts if p[0] == "arg") != sorted(p for p in ends if p[0] == "arg"):
+        return False
+    starts = [p for p in starts if p[0] != "arg"]; ends = [p for p in ends if p[0] != "arg"]
     if len(starts) != len(set(starts)) or len(ends) != len(set(ends)) or set(starts) != set(ends):
         return False
     if loop.pending:
